@@ -4,8 +4,10 @@ import (
 	"go/token"
 	"go/types"
 	"net/textproto"
+	"regexp"
 	"sort"
 	"strconv"
+	"strings"
 
 	"golang.org/x/tools/go/ssa"
 )
@@ -74,6 +76,37 @@ func serveHTTP(p *Prog) *ssa.Function {
 	return fn
 }
 
+// entryBody is the function that carries the entry point's decision logic: ServeHTTP itself, or -
+// when its body was moved into a helper that only ServeHTTP calls ("split the long function") -
+// that helper.  It is found by role: the function that calls the request validator.
+func entryBody(p *Prog) *ssa.Function {
+	entry := serveHTTP(p)
+	validate := p.Func("(*operation).validate")
+	if validate == nil {
+		return entry
+	}
+	cur := entry
+	for depth := 0; depth < 3; depth++ {
+		callsValidate := false
+		var next *ssa.Function
+		for _, call := range Calls(cur) {
+			for _, cal := range p.CalleesAt(call) {
+				if cal == validate {
+					callsValidate = true
+				}
+				if cal != validate && p.inScope(cal) && len(cal.Blocks) > 0 && p.OnlyCalledWithin(cal, cur) && p.Reach(cal)[validate] {
+					next = cal
+				}
+			}
+		}
+		if callsValidate || next == nil {
+			return cur
+		}
+		cur = next
+	}
+	return cur
+}
+
 // dispatchers computes the set D of module functions that may (transitively)
 // dispatch to a handler, and the direct dispatch instructions.
 func dispatchers(p *Prog) (map[*ssa.Function]bool, map[*ssa.Function][]ssa.CallInstruction) {
@@ -132,7 +165,10 @@ func dispatchEvents(p *Prog, fn *ssa.Function, D map[*ssa.Function]bool) []ssa.C
 }
 
 func runC18(c *Ctx) {
+	// clause shared with C07: a value that does not fill the template is a rejection, not a dispatch
+	defer c.ImportRules("C07", "C07.5")
 	p := c.P
+	defer runC18MediaTypeNotPrefix(c)
 	// clauses this property shares with others (see DESIGN.md section 6a)
 	defer c.ImportRules("C09", "C09.1")
 	defer c.ImportRules("C12", "C12.5")
@@ -221,7 +257,18 @@ func runC18(c *Ctx) {
 			return false
 		}
 		for _, call := range Calls(fn) {
-			if !isOpReport(call) {
+			// the operation's reporter, and (seed C18l) the response writer's reporter called by the
+			// dispatching function itself: once the client has been answered with an error, the
+			// function must not go on to invoke the handler
+			isRw := false
+			if _, isDefer := call.(*ssa.Defer); !isDefer {
+				for _, cal := range p.CalleesAt(call) {
+					if cal == rwReport {
+						isRw = true
+					}
+				}
+			}
+			if !isOpReport(call) && !isRw {
 				continue
 			}
 			c.CountSite()
@@ -239,7 +286,8 @@ func runC18(c *Ctx) {
 	}
 	// guard of the dispatches in the entry point
 	var valCall *ssa.Call
-	for _, call := range Calls(entry) {
+	body := entryBody(p)
+	for _, call := range Calls(body) {
 		for _, cal := range p.CalleesAt(call) {
 			if cal == validate {
 				if cv, ok := call.(*ssa.Call); ok {
@@ -256,7 +304,7 @@ func runC18(c *Ctx) {
 		fatalf("anchor=errNotFound global not found")
 	}
 	unknownFld := p.MustField("Transcoder", "unknownHandler")
-	for _, e := range dispatchEvents(p, entry, D) {
+	for _, e := range dispatchEvents(p, body, D) {
 		facts := FactsAt(e.Block())
 		errNil, isNF, hasUnknown := false, false, false
 		var used []string
@@ -282,7 +330,7 @@ func runC18(c *Ctx) {
 		ok := errNil || (isNF && hasUnknown)
 		// the dispatch must be after the validate call at all
 		ok = ok && valCall.Block().Dominates(e.Block())
-		c.Check(ok, "C18.2", FuncName(entry), "guard:"+CalleeName(e), e.Pos(),
+		c.Check(ok, "C18.2", FuncName(body), "guard:"+CalleeName(e), e.Pos(),
 			"dispatch is dominated by a successful validation or by the not-found sentinel with an unknown handler configured",
 			"dispatch is reachable although validation failed (neither 'validate()==nil' nor 'not-found and unknownHandler!=nil' dominates it)", used...)
 	}
@@ -599,3 +647,35 @@ func joinStr(s []string) string {
 }
 
 func itoa(i int) string { return strconv.Itoa(i) }
+
+// runC18MediaTypeNotPrefix: C18.6 (seed C18i).  Which media types the middleware serves is a
+// closed table; everything else is 415.  Each entry is either a family ("application/grpc+",
+// "application/connect+", "application/": the constant ends in the separator) matched as a
+// prefix, or one complete media type matched for equality after the parameters were cut off.
+// Matching a COMPLETE media type as a prefix lets its longer cousins in ("application/json" also
+// admits application/json-seq, application/jsonl, application/json5...): those bodies are then
+// handed to the JSON codec and fail with 400, or - worse - parse.  Decided over every
+// strings.HasPrefix / strings.Contains in the packages: a constant operand that is a complete
+// media type (type "/" subtype, no trailing separator) is a violation.
+func runC18MediaTypeNotPrefix(c *Ctx) {
+	p := c.P
+	c.Rule("C18.6", "a complete media type is matched for equality, only families are matched as prefixes", 3)
+	complete := regexp.MustCompile(`^[a-z]+/[a-z0-9.\-]+$`)
+	for _, fn := range p.Funcs {
+		if !p.inScope(fn) {
+			continue
+		}
+		for _, call := range Calls(fn) {
+			if !IsCallTo(call, "strings.HasPrefix", "strings.Contains") {
+				continue
+			}
+			k, ok := ConstString(call.Common().Args[1])
+			if !ok || !strings.Contains(k, "/") {
+				continue
+			}
+			c.Check(!complete.MatchString(k), "C18.6", FuncName(fn), "media-type-family-prefix|"+k, call.Pos(),
+				"the prefix "+strconv.Quote(k)+" names a family (ends in its separator)",
+				"the complete media type "+strconv.Quote(k)+" is matched as a prefix / substring: longer media types that merely begin with it ("+k+"-seq, "+k+"l, "+k+"5 ...) are accepted as if they were "+k+" instead of being answered with 415")
+		}
+	}
+}
